@@ -9,8 +9,12 @@ package timeinterval
 
 // number of days of the month t falls in (in t's location): computed through time.Date; assumed to be the calendar's month length
 //@ uf daysIn(*time.Location, time.Time) int
+// The body is verified up to the calendar: the date handed to time.Date is day 0 of the month after t's month, both
+// read in t's own location, and built in that location. Assumed (after-call clause): the day of that date is daysIn.
 //@ func daysInMonth
-//@   trusted
+//@   props C15
+//@   at call time.Date assert [last-day-of-t's-month-in-t's-location] arg0 == at(t, zone(t)).Year() && arg1 == at(t, zone(t)).Month() + 1 && arg2 == 0 && arg7 == zone(t)
+//@   after call time.Date assume arg0 == at(t, zone(t)).Year() && arg1 == at(t, zone(t)).Month() + 1 && arg2 == 0 && arg7 == zone(t) ==> at(res0, zone(t)).Day() == daysIn(zone(t), t) && 28 <= daysIn(zone(t), t) && daysIn(zone(t), t) <= 31 && at(t, zone(t)).Day() <= daysIn(zone(t), t)
 //@   ensures result == daysIn(zone(t), t) && 28 <= result && result <= 31 && at(t, zone(t)).Day() <= result
 //@   assigns nothing
 
